@@ -11,12 +11,14 @@ if VERIF not in sys.path:
     sys.path.insert(0, VERIF)
 
 
-def run_one(mod, R, rec):
+def run_one(mod, R, rec, subst=False):
     from sx.harness import ConcEnv
     from sx.core import Infeasible
     from sx import env as sxenv
     E = ConcEnv(rec["witness"], rec.get("params"))
-    E.H = sxenv.NativeOracle()
+    E.H = sxenv.NativeOracle(rec.get("oracle") if subst else None)
+    if subst:
+        E.H.patch_repo(R)
     try:
         fn = getattr(mod, rec["fn"])
         ret = fn(E, R, **rec.get("params", {}))
@@ -41,7 +43,15 @@ def main():
     if batch:
         print(json.dumps(dict(results=[run_one(mod, R, r) for r in data["batch"]])))
     else:
-        print(json.dumps(run_one(mod, R, data)))
+        r = run_one(mod, R, data)
+        if r["status"] == "passed" and data.get("oracle"):
+            # the witness depends on hash outputs the solver chose: replay once more with exactly
+            # those outputs substituted for the hash primitives (from outside the repository)
+            r2 = run_one(mod, R, data, subst=True)
+            if r2["status"] == "reproduced":
+                r2["substituted_hashes"] = len(data["oracle"])
+                r = r2
+        print(json.dumps(r))
 
 
 if __name__ == "__main__":
